@@ -508,7 +508,7 @@ def compare_events(case, io, mo):
         if a[0] != b[0]:
             return 'event %d %r: implementation %r, model %r' % (i, case['events'][i], a[0], b[0])
         if b[1] is not None and a[1] != b[1]:
-            return 'after event %d %r: database read back as %r, model %r' % (i, case['events'][i], _short(a[1]), _short(b[1]))
+            return 'after event %d %r: database read back as %s, model %s' % (i, case['events'][i], _short(a[1]), _short(b[1]))
     return None
 
 # ------------------------------------------------------------------ intrinsic oracle (no model)
@@ -699,7 +699,7 @@ def list_oracle(case, io):
             if kk in keys and e0[0] != 'open':
                 exp = expected_answers(e[2], prev[keys.index(kk)])
                 if exp is not None and r[1] != exp:
-                    return ('event %d %r: answers %r; the matching facts of the list, in order, give %r' % (i, e, _short(r[1]), _short(exp)))
+                    return ('event %d %r: answers %s; the matching facts of the list, in order, give %s' % (i, e, _short(r[1]), _short(exp)))
         prev = rb
     return None
 
